@@ -24,9 +24,12 @@ Auxiliary monitors K1 (LinkedList) and K2 (OrderedSet) from vp.kmon run on every
 underlying call and localise a failure to the method that broke the
 representation.
 """
+import functools
 import io
 import itertools
+import operator
 import os
+import random
 
 from .. import contracts, kmon
 from ..core import MonitorViolation
@@ -91,6 +94,9 @@ MUST_REACH = ['debian.deb822:Deb822Dict.__setitem__', 'debian.deb822:Deb822Dict.
 # total numbers of RANDOM histories per tier (the enumerated part comes on top)
 RANDOM_HISTORIES = {'quick': 6000, 'thorough': 300000}
 MAX_OPS = {'quick': 30, 'thorough': 40}
+# the two added flavours ('sortkeys', 'copies'): shorter histories, counts per tier
+FLAVOUR_HISTORIES = {'sortkeys': {'quick': 1200, 'thorough': 60000}, 'copies': {'quick': 1200, 'thorough': 60000}}
+FLAVOUR_MAX_OPS = 12
 ENUM_LEN = {'quick': 3, 'thorough': 4}
 
 FLOORS = {
@@ -124,7 +130,18 @@ NAMES = {
                  ('ab', 'AB', 'aB', 'Ab'), ('B1', 'b1')],
 }
 
+# Names whose FIRST spellings have mixed-case initial letters: they sort differently case-sensitively
+# ('A' 'Ab' 'B1' 'X-foo' 'Z' 'a2' 'aa' 'b' 'x-Bar') and case-insensitively ('A' 'a2' 'aa' 'Ab' 'b' 'B1' ...).
+SORT_NAMES = [('b', 'B'), ('A', 'a'), ('a2', 'A2'), ('B1', 'b1'), ('X-foo', 'x-foo', 'X-FOO'),
+              ('x-Bar', 'X-Bar', 'X-BAR'), ('Z', 'z'), ('aa', 'AA', 'aA'), ('Ab', 'ab', 'AB', 'aB')]
+
 REORDERS = ('first', 'last', 'before', 'after')
+
+# how a copy is taken: (a) results that are Deb822 / Deb822Dict objects again (observed in full, may become the
+# object the history continues on), (b) plain snapshots (compared with the model at once).
+COPY_OBJECTS = ('copy', 'ctor', 'Deb822', 'Deb822Dict', 'ctor-items', 'ctor-item-list', 'ctor-dict-items', 'ctor-dict')
+COPY_SNAPSHOTS = ('dict-items', 'dict', 'list-items', 'list-keys', 'list-values', 'list', 'tuple-items')
+COPY_HOWS = COPY_OBJECTS + COPY_SNAPSHOTS
 
 PROFILES = {
     'balanced': {'set': 20, 'del': 10, 'get': 3, 'in': 2, 'first': 8, 'last': 8, 'before': 12, 'after': 12,
@@ -133,6 +150,12 @@ PROFILES = {
                  'sort': 3, 'copy': 3, 'cycle': 4, 'pop': 4, 'setdefault': 2, 'update': 1},
     'reorder':  {'set': 12, 'del': 6, 'get': 1, 'in': 1, 'first': 16, 'last': 16, 'before': 20, 'after': 20,
                  'sort': 3, 'copy': 2, 'cycle': 2, 'pop': 1, 'setdefault': 0, 'update': 0},
+    # sort_fields(key=f) with key functions returning the key object itself, on the mixed-case alphabet
+    'sortkeys': {'set': 12, 'del': 4, 'get': 1, 'in': 1, 'first': 5, 'last': 5, 'before': 5, 'after': 5,
+                 'sort': 40, 'copy': 16, 'cycle': 4, 'pop': 1, 'setdefault': 1, 'update': 0},
+    # copies of every kind, taken after re-orderings
+    'copies':   {'set': 10, 'del': 4, 'get': 0, 'in': 0, 'first': 11, 'last': 11, 'before': 11, 'after': 11,
+                 'sort': 10, 'copy': 30, 'cycle': 3, 'pop': 1, 'setdefault': 0, 'update': 1},
     'grow':     {'set': 40, 'del': 4, 'get': 2, 'in': 2, 'first': 8, 'last': 8, 'before': 10, 'after': 10,
                  'sort': 5, 'copy': 3, 'cycle': 4, 'pop': 1, 'setdefault': 2, 'update': 3},
 }
@@ -144,13 +167,44 @@ SORT_KEYS = {
     'len': len,                     # ties: stability
     'str': str,                     # caller chose a case-sensitive key
 }
-MODEL_SORT_KEYS = {
-    'default': lambda s: s.lower(),
-    'lower': lambda s: s.lower(),
-    'rev': lambda s: s.lower()[::-1],
-    'len': len,
-    'str': lambda s: s,
+
+
+def _cmp_keys(a, b):
+    return (a > b) - (a < b)
+
+
+def _cmp_keys_desc(a, b):
+    return (a < b) - (a > b)
+
+
+# Key functions whose result IS the object sort_fields() hands over, or a container holding it, or is computed
+# from it through ORDERING comparisons (< > <= >=) only.  None of them looks at ==/hash of the key against a
+# plain string (that is where a case-folding key object and a plain str legitimately differ), so for the
+# case-insensitively distinct names of one paragraph every one of them must order exactly as it does on the
+# plain str spellings - whether the library hands over its own key type or a plain str.
+STORED_KEY_SORT_KEYS = {
+    'ident': lambda k: k,
+    'x-tuple': lambda k: (k.startswith('X-'), k),
+    'len-tuple': lambda k: (len(k), k),
+    'slice-rev': lambda k: k[::-1],
+    'first-char': operator.itemgetter(0),                 # ties: stability
+    'first-two': operator.itemgetter(slice(0, 2)),        # ties: stability
+    'last-char-then-key': lambda k: (k[-1], k),
+    'upper-initial-first': lambda k: (not k[:1].isupper(), k),
+    'list-wrap': lambda k: [k],
+    'nested-tuple': lambda k: ((k,), 0),
+    'key-then-lower': lambda k: (k, k.lower()),
+    'lower-then-key': lambda k: (k.lower(), k),
+    'ge-literal': lambda k: (k >= 'M', k),
+    'swapcase': lambda k: k.swapcase(),
+    'cmp': functools.cmp_to_key(_cmp_keys),
+    'cmp-desc': functools.cmp_to_key(_cmp_keys_desc),
+    'dash-tuple': lambda k: ('-' in k, k),
 }
+STORED_KEY_NAMES = sorted(STORED_KEY_SORT_KEYS)
+SORT_KEYS.update(STORED_KEY_SORT_KEYS)
+MODEL_SORT_KEYS = dict(SORT_KEYS)          # the SAME functions, applied by the model to plain str spellings
+MODEL_SORT_KEYS['default'] = lambda s: s.lower()
 CYCLES = ('str', 'bytes', 'lines', 'iter', 'fd-bytes', 'fd-text')
 
 
@@ -269,18 +323,21 @@ def _apply_to_model(m, op):
 # ---------------------------------------------------------------------------
 # workload
 
-def gen_start(r, names, cls):
+def gen_start(r, names, cls, flavour='classic'):
     kinds = ({'empty': 20, 'dict': 22, 'parsed-str': 15, 'parsed-bytes': 8, 'parsed-lines': 7, 'iter': 8, 'lazy': 10}
              if cls == 'Deb822' else {'empty': 25, 'dict': 30, 'pairs': 30, 'lazy': 15})
+    if flavour != 'classic':
+        kinds = dict(kinds, empty=4)
     kind = _weighted(r, kinds)
     if kind == 'empty':
         return {'kind': 'empty', 'pairs': []}
-    n = r.choice([1, 1, 2, 2, 3, 3, 4, 5, 6])
+    n = r.choice([1, 1, 2, 2, 3, 3, 4, 5, 6]) if flavour == 'classic' else r.choice([2, 3, 4, 5, 6, 7, 8, 9, 9])
     pairs = []
     seen = set()
     dup_ok = kind in ('dict', 'pairs') and r.random() < 0.3
     for i in range(n):
-        k = r.choice(r.choice(names))
+        g = r.choice(names)
+        k = g[0] if (flavour != 'classic' and r.random() < 0.6) else r.choice(g)
         if k in seen:
             continue                          # a Python dict cannot hold the same spelling twice
         if k.lower() in set(s.lower() for s in seen) and not dup_ok:
@@ -294,21 +351,57 @@ def gen_start(r, names, cls):
     return st
 
 
-def gen_history(r, tier):
-    allnames = NAMES[tier]
-    names = r.sample(allnames, r.choice([1, 2, 2, 3, 3, 4, 5, min(7, len(allnames))]))
-    cls = 'Deb822' if r.random() < 0.85 else 'Deb822Dict'
-    start = gen_start(r, names, cls)
+def _sort_choice(r, flavour):
+    if flavour == 'sortkeys' or (flavour == 'classic' and r.random() < 0.25) or (flavour == 'copies' and r.random() < 0.5):
+        return r.choice(STORED_KEY_NAMES)
+    return _weighted(r, {'default': 55, 'lower': 10, 'rev': 15, 'len': 10, 'str': 10})
+
+
+def _copy_choice(r, flavour, cls):
+    """['copy', how, keep]: the two historical forms stay the common ones in the classic flavour."""
+    if flavour == 'classic' and r.random() < 0.6:
+        return ['copy', r.choice(['copy', 'copy', 'ctor']), r.choice(['new', 'new', 'old'])]
+    how = r.choice(COPY_OBJECTS) if r.random() < 0.6 else r.choice(COPY_SNAPSHOTS)
+    return ['copy', how, r.choice(['new', 'old', 'old'])]
+
+
+def _class_after_copy(cls, op):
+    """Class of the object the history continues on after a copy operation."""
+    if op[2] != 'new' or op[1] not in COPY_OBJECTS:
+        return cls
+    return {'Deb822': 'Deb822', 'Deb822Dict': 'Deb822Dict'}.get(op[1], cls)
+
+
+def gen_history(r, tier, flavour='classic'):
+    if flavour == 'classic':
+        allnames = NAMES[tier]
+        names = r.sample(allnames, r.choice([1, 2, 2, 3, 3, 4, 5, min(7, len(allnames))]))
+    elif flavour == 'sortkeys':
+        names = r.sample(SORT_NAMES, r.choice([3, 4, 5, 6, 7, 8, 9, 9]))
+    else:
+        allnames = SORT_NAMES if r.random() < 0.5 else NAMES[tier]
+        names = r.sample(allnames, r.choice([2, 3, 4, 5, min(7, len(allnames))]))
+    cls = cls_start = 'Deb822' if r.random() < 0.85 else 'Deb822Dict'
+    start = gen_start(r, names, cls, flavour)
     m = CIListMap(start['pairs'])
-    profile = PROFILES[r.choice(['balanced', 'balanced', 'small', 'reorder', 'reorder', 'grow'])]
+    if flavour == 'classic':
+        profile = PROFILES[r.choice(['balanced', 'balanced', 'small', 'reorder', 'reorder', 'grow'])]
+    else:
+        profile = PROFILES[flavour]
     item_want = {'variant': 50, 'exact': 20, 'absent': 15, 'any': 15}
     set_want = {'absent': 40, 'variant': 35, 'exact': 15, 'any': 10}
     del_want = {'variant': 45, 'exact': 25, 'absent': 20, 'any': 10}
-    nops = r.randint(1, MAX_OPS[tier])
+    if flavour != 'classic':
+        item_want = {'variant': 35, 'exact': 50, 'absent': 5, 'any': 10}
+        set_want = {'absent': 60, 'variant': 20, 'exact': 10, 'any': 10}
+    nops = r.randint(1, MAX_OPS[tier]) if flavour == 'classic' else r.randint(2, FLAVOUR_MAX_OPS)
     ops = []
     vid = 0
     for _ in range(nops):
         kind = _weighted(r, profile)
+        if (flavour != 'classic' and ops and kind != 'copy' and r.random() < 0.35
+                and (ops[-1][0] in REORDERS or ops[-1][0] == 'sort')):
+            kind = 'copy'                      # a copy taken right after a re-ordering
         if kind == 'cycle' and cls != 'Deb822':
             kind = 'copy'
         vid += 1
@@ -327,9 +420,10 @@ def gen_history(r, tier):
                 ref = _pick(r, m, names, _want(r, item_want))
             op = [kind, k, ref]
         elif kind == 'sort':
-            op = ['sort', _weighted(r, {'default': 55, 'lower': 10, 'rev': 15, 'len': 10, 'str': 10})]
+            op = ['sort', _sort_choice(r, flavour)]
         elif kind == 'copy':
-            op = ['copy', r.choice(['copy', 'copy', 'ctor']), r.choice(['new', 'new', 'old'])]
+            op = _copy_choice(r, flavour, cls)
+            cls = _class_after_copy(cls, op)
         elif kind == 'cycle':
             op = ['cycle', r.choice(CYCLES)]
         elif kind == 'pop':
@@ -341,7 +435,10 @@ def gen_history(r, tier):
                              for j in range(r.randint(1, 3))], r.choice(['dict', 'pairs'])]
         ops.append(op)
         _apply_to_model(m, op)          # the generator only uses this to aim its next choice
-    return {'cls': cls, 'start': start, 'ops': ops}
+    case = {'cls': cls_start, 'start': start, 'ops': ops}
+    if flavour != 'classic':
+        case['flavour'] = flavour
+    return case
 
 
 ENUM_OPS = [['set', 'a', None], ['set', 'A', None], ['set', 'b', None], ['set', 'c', None],
@@ -374,17 +471,74 @@ def enum_cases(ctx):
                 yield {'cls': 'Deb822', 'start': st, 'ops': ops, 'enum': True}
 
 
+SORT_ENUM_ORDERS = {'quick': 8, 'thorough': 60}
+SORT_ENUM_STARTS = (('Deb822', 'dict'), ('Deb822', 'parsed-str'), ('Deb822Dict', 'pairs'), ('Deb822', 'lazy'))
+
+
+def sort_enum_orders(tier):
+    """Fixed start orders over the first spellings of SORT_NAMES (the same for every seed): the full set in the
+    order given in the gap description, reversed, case-insensitively sorted, then seed-independent shuffles of
+    the full set and of subsets of 3..8 names."""
+    full = [g[0] for g in SORT_NAMES]
+    out = [full, full[::-1], sorted(full, key=lambda s: s.lower()), sorted(full)]
+    rr = random.Random('C09/sort-enum-orders')
+    while len(out) < SORT_ENUM_ORDERS[tier]:
+        n = len(full) if len(out) % 2 == 0 else rr.randint(3, 8)
+        o = rr.sample(full, n)
+        if o not in out:
+            out.append(o)
+    return out
+
+
+def sort_enum_cases(ctx):
+    """Every stored-key key function x every fixed start order x 4 start kinds: sort, copy (kind rotating),
+    re-order, copy, add a field, sort again, copy and go on with the copy, re-order it."""
+    idx = 0
+    hows = COPY_HOWS
+    for oi, order in enumerate(sort_enum_orders(ctx.tier)):
+        for ki, kname in enumerate(STORED_KEY_NAMES):
+            for si, (cls, skind) in enumerate(SORT_ENUM_STARTS):
+                idx += 1
+                if not ctx.mine(idx):
+                    continue
+                st = {'kind': skind, 'pairs': [[k, 's%d' % i] for i, k in enumerate(order)]}
+                if skind in ('parsed-str', 'lazy'):
+                    st['sep'], st['lead'] = ': ', ''
+                absent = [g for g in SORT_NAMES if g[0] not in order]
+                newk = absent[(oi + ki) % len(absent)][1] if absent else 'Q-new'
+                rot = oi * 7 + ki * 3 + si
+                ops = [['sort', kname],
+                       ['copy', hows[rot % len(hows)], 'old'],
+                       ['last', order[(ki + si) % len(order)].swapcase()],
+                       ['copy', hows[(rot + 5) % len(hows)], 'old'],
+                       ['set', newk, 'n%d' % ki],
+                       ['sort', kname],
+                       ['copy', COPY_OBJECTS[rot % len(COPY_OBJECTS)], 'new'],
+                       ['first', order[(ki + 2 * si + 1) % len(order)]],
+                       ['copy', hows[(rot + 9) % len(hows)], 'old']]
+                yield {'cls': cls, 'start': st, 'ops': ops, 'enum': True, 'flavour': 'sort-enum'}
+
+
 def cases(ctx):
     ctx.extra['exhaustive_subspaces'] = [
         'all operation sequences of length 1..%d over the %d-operation alphabet ENUM_OPS (names a/b/c addressed '
-        'through a/A, b/B, c/C) from %d start states' % (ENUM_LEN[ctx.tier], len(ENUM_OPS), len(ENUM_STARTS))]
+        'through a/A, b/B, c/C) from %d start states' % (ENUM_LEN[ctx.tier], len(ENUM_OPS), len(ENUM_STARTS)),
+        'every one of the %d stored-key key functions x %d fixed start orders of the mixed-case names x %d start '
+        'kinds (sort, copy, re-order, copy, add, sort, copy, re-order, copy)'
+        % (len(STORED_KEY_NAMES), SORT_ENUM_ORDERS[ctx.tier], len(SORT_ENUM_STARTS))]
     if ctx.shard == 0:
         yield {'kind': 'repo-tests'}        # the repository's own tests under K1/K2, as one more workload
+    for case in sort_enum_cases(ctx):
+        yield case
     for case in enum_cases(ctx):
         yield case
     r = ctx.rng('histories')
     for _ in range(ctx.size(RANDOM_HISTORIES['quick'], RANDOM_HISTORIES['thorough'])):
         yield gen_history(r, ctx.tier)
+    for flavour in ('sortkeys', 'copies'):
+        r = ctx.rng('histories', flavour)
+        for _ in range(ctx.size(FLAVOUR_HISTORIES[flavour]['quick'], FLAVOUR_HISTORIES[flavour]['thorough'])):
+            yield gen_history(r, ctx.tier, flavour)
 
 
 # ---------------------------------------------------------------------------
@@ -429,9 +583,49 @@ def spellings(k):
     return [k, k.lower(), k.upper(), k.swapcase()]
 
 
-def observe(d, m, universe, has_dump):
+def _lower(s):
+    return s.lower()
+
+
+def observe_plain_order(d, exp_keys, rec, memo=None):
+    """sorted()/min()/max() over the mapping's keys must order them as the plain str spellings order: whatever
+    type the library hands out as a key, only its ==/hash may fold case.  (The keys of one paragraph are
+    case-insensitively distinct, so a case-folding == never turns two of them into a tie.)
+    `memo` (per history, main object only): when the key list is the one that was fully examined at the previous
+    observation, only sorted(d) is repeated (cost)."""
+    want = sorted(exp_keys)
+    if memo is not None:
+        if memo.get('plain') == exp_keys:
+            got = [plain(k) for k in sorted(d)]
+            if got != want:
+                return ('keys-do-not-order-like-plain-strings', 'sorted(d) gives %r, the plain spellings sort as %r'
+                        % (got, want))
+            return None
+        memo['plain'] = exp_keys
+    if len(want) >= 2:
+        rec.mon('M.plain-order')
+        if want != sorted(exp_keys, key=_lower):
+            rec.count('plain-order:case-matters')
+    for what, f in (('sorted(d)', lambda: sorted(d)), ('sorted(d.keys())', lambda: sorted(d.keys())),
+                    ('sorted(d, reverse=True)', lambda: sorted(d, reverse=True)[::-1])):
+        got = [plain(k) for k in f()]
+        if got != want:
+            return ('keys-do-not-order-like-plain-strings', '%s gives %r, the plain spellings sort as %r'
+                    % (what, got, want))
+    if want:
+        for what, f, exp in (('min(d)', lambda: min(d), want[0]), ('max(d)', lambda: max(d), want[-1]),
+                             ('max(d.keys())', lambda: max(d.keys()), want[-1])):
+            got = plain(f())
+            if got != exp:
+                return ('keys-do-not-order-like-plain-strings', '%s gives %r, the plain spellings %r give %r'
+                        % (what, got, exp_keys, exp))
+    return None
+
+
+def observe(d, m, universe, has_dump, rec=None, memo=None):
     """Full comparison of the observable state with the model.
     Returns None or (aspect, message)."""
+    rec = rec if rec is not None else _QUIET
     exp_keys = m.keys()
     got_keys = [plain(k) for k in d]
     if got_keys != exp_keys:
@@ -473,6 +667,12 @@ def observe(d, m, universe, has_dump):
         return ('views', 'list(d.items())=%r, model %r' % (items, m.items()))
     if [plain(k) for k in d.keys()] != exp_keys:
         return ('views', 'list(d.keys())=%r, model %r' % (list(d.keys()), exp_keys))
+    values = [plain(v) for v in d.values()]
+    if values != m.values():
+        return ('views', 'list(d.values())=%r, model %r (keys %r)' % (values, m.values(), exp_keys))
+    bad = observe_plain_order(d, exp_keys, rec, memo)
+    if bad:
+        return bad
     if has_dump:
         text = d.dump()
         got = read_dump(text)
@@ -560,6 +760,9 @@ class _Quiet(object):
     def mon(self, *a, **k): pass
 
 
+_QUIET = _Quiet()
+
+
 def op_keys(op):
     kind = op[0]
     if kind in ('set', 'del', 'get', 'in', 'first', 'last', 'pop', 'setdefault'):
@@ -615,6 +818,83 @@ def classify_reorder(rec, m, op):
             rec.count('del:tail')
 
 
+COPY_TEXT = {
+    'copy': 'd.copy()', 'ctor': 'type(d)(d)', 'Deb822': 'Deb822(d)', 'Deb822Dict': 'Deb822Dict(d)',
+    'ctor-items': 'Deb822Dict(d.items()) [Deb822: Deb822(Deb822Dict(d.items()))]', 'ctor-item-list': 'type(d)(list(d.items())) [Deb822: via dict(...)]',
+    'ctor-dict-items': 'type(d)(dict(d.items()))', 'ctor-dict': 'type(d)(dict(d))',
+    'dict-items': 'dict(d.items())', 'dict': 'dict(d)', 'list-items': 'list(d.items())',
+    'list-keys': 'list(d.keys())', 'list-values': 'list(d.values())', 'list': 'list(d)',
+    'tuple-items': 'tuple(d.items())',
+}
+
+
+def take_copy(deb822, d, how):
+    """Returns (new mapping object or None, plain snapshot or None).
+    The Deb822 constructor reads a non-mapping argument as LINES OF TEXT, so a pair list / items view is only
+    handed to Deb822Dict directly; for a Deb822 it goes through dict(...) (a plain dict keeps the order)."""
+    t = type(d)
+    if how == 'copy':
+        return d.copy(), None
+    if how == 'ctor':
+        return t(d), None
+    if how == 'Deb822':
+        return deb822.Deb822(d), None
+    if how == 'Deb822Dict':
+        return deb822.Deb822Dict(d), None
+    if how == 'ctor-items':
+        return (t(d.items()) if t is deb822.Deb822Dict else t(deb822.Deb822Dict(d.items()))), None
+    if how == 'ctor-item-list':
+        return (t(list(d.items())) if t is deb822.Deb822Dict else t(dict(list(d.items())))), None
+    if how == 'ctor-dict-items':
+        return t(dict(d.items())), None
+    if how == 'ctor-dict':
+        return t(dict(d)), None
+    if how == 'dict-items':
+        return None, dict(d.items())
+    if how == 'dict':
+        return None, dict(d)
+    if how == 'list-items':
+        return None, list(d.items())
+    if how == 'list-keys':
+        return None, list(d.keys())
+    if how == 'list-values':
+        return None, list(d.values())
+    if how == 'list':
+        return None, list(d)
+    if how == 'tuple-items':
+        return None, tuple(d.items())
+    raise AssertionError(how)
+
+
+def check_snapshot(how, snap, m):
+    """A plain snapshot (dict / list / tuple) against the model: same spellings, values, order."""
+    if how in ('dict-items', 'dict'):
+        if type(snap) is not dict:
+            return ('snapshot-type', 'not a dict: %r' % (snap,))
+        got = [(plain(k), plain(v)) for k, v in snap.items()]
+        exp = m.items()
+    elif how in ('list-items', 'tuple-items'):
+        got = [(plain(k), plain(v)) for k, v in snap]
+        exp = m.items()
+    elif how in ('list-keys', 'list'):
+        got = [plain(k) for k in snap]
+        exp = m.keys()
+    else:
+        got = [plain(v) for v in snap]
+        exp = m.values()
+    if got == exp:
+        return None
+    if how == 'list-values':
+        aspect = 'value-order' if sorted(got) == sorted(exp) else 'value'
+    else:
+        gk = [x[0] if isinstance(x, tuple) else x for x in got]
+        ek = [x[0] if isinstance(x, tuple) else x for x in exp]
+        gl, el = [k.lower() for k in gk], [k.lower() for k in ek]
+        aspect = ('value' if gk == ek else 'spelling' if gl == el else
+                  'key-order' if sorted(gl) == sorted(el) else 'key-set')
+    return (aspect, 'got %r, model %r' % (got, exp))
+
+
 def execute(rec, case):
     """Run one history.  Returns (violation or None, info):
     violation = (mechanism_key, message, number_of_ops_executed)."""
@@ -624,6 +904,12 @@ def execute(rec, case):
     st = case['start']
     ops = case['ops']
     info = {'variant_use': False, 'restructured': False}
+    # order in which the names of the CURRENT live object were first inserted into it (lower-cased): what an
+    # implementation that forgets a re-ordering falls back to.  A copy is "taken after a re-ordering" when the
+    # model order differs from it at that moment.
+    ins = []
+    memo = {}
+    last_move = -1          # index of the last operation that effectively changed the order
 
     universe = []
     for k in [p[0] for p in st['pairs']] + [k for op in ops for k in op_keys(op)]:
@@ -636,9 +922,10 @@ def execute(rec, case):
     try:
         m = CIListMap(st['pairs'])
         d = build_start(cls, st)
+        ins = [k.lower() for k in m.keys()]
         rec.count('start:%s' % st['kind'])
         rec.mon('M')
-        bad = observe(d, m, universe, has_dump)
+        bad = observe(d, m, universe, has_dump, rec)
         if bad:
             return (('start-%s/%s' % (st['kind'], bad[0]), 'after construction: ' + bad[1], 0), info)
 
@@ -652,7 +939,29 @@ def execute(rec, case):
                     info['variant_use'] = True
             classify_reorder(rec, m, op)
             before_len = len(m)
+            keys_before = m.keys()
             expect, value = _apply_to_model(m, op)
+            stored_key_sort = kind == 'sort' and op[1] in STORED_KEY_SORT_KEYS
+            if kind in REORDERS or kind == 'sort':
+                if expect == 'ok' and m.keys() != keys_before:
+                    last_move = step
+                    rec.count('moved:%s' % kind)
+                if stored_key_sort:
+                    rec.count('sortkey:%s' % op[1])
+                    if len(keys_before) >= 2:
+                        rec.mon('M.sortkey')
+                    f = MODEL_SORT_KEYS[op[1]]
+                    if m.keys() != sorted(keys_before, key=lambda k: f(k.lower())):
+                        rec.count('sortkey:case-matters')     # the demanded order depends on the letters' case
+                    if m.keys() != keys_before:
+                        rec.count('sortkey:moved')
+            elif kind == 'set' and len(m) != before_len:
+                ins.append(op[1].lower())
+            elif kind in ('setdefault', 'update'):
+                ins.extend(k.lower() for k in m.keys()[before_len:])
+            elif kind in ('del', 'pop') and len(m) != before_len:
+                ins = [k for k in ins if k != op[1].lower()]
+            reordered = [k.lower() for k in m.keys()] != ins
 
             # ---- perform on the live object
             raised = None
@@ -682,9 +991,10 @@ def execute(rec, case):
                     else:
                         d.sort_fields(key=f)
                 elif kind == 'copy':
-                    newd = d.copy() if op[1] == 'copy' else cls(d)
+                    newd, result = take_copy(deb822, d, op[1])
                 elif kind == 'cycle':
-                    newd = reparse(cls, d, op[1], m)
+                    # (a history cut down by the shrinker may reach a dump->parse step on a Deb822Dict: plain copy)
+                    newd = reparse(type(d), d, op[1], m) if has_dump else type(d)(d)
                 elif kind == 'pop':
                     result = d.pop(op[1], 'DEFAULT') if op[2] else d.pop(op[1])
                 elif kind == 'setdefault':
@@ -740,26 +1050,50 @@ def execute(rec, case):
                              'op %r raised %r, expected %s' % (op, raised, expect), step + 1), info)
 
             # ---- copies / re-parsed objects: continue on one, keep the other as a ghost
+            if kind == 'copy':
+                label = 'copy' if op[1] in ('copy', 'ctor') else 'copy-via-%s' % op[1]
+                rec.count('copy:%s' % op[1])
+                rec.mon('M.copy')
+                if reordered:
+                    rec.count('copy-after-reorder:%s' % op[1])
+                    rec.mon('M.copy.after-reorder')
+                if newd is None:
+                    bad = check_snapshot(op[1], result, m)
+                    if bad:
+                        return (('%s/%s%s' % (label, bad[0], '/taken-after-re-ordering' if reordered else ''),
+                                 '%s taken after op #%d: %s' % (COPY_TEXT[op[1]], step - 1, bad[1]), step + 1), info)
             if newd is not None:
                 keep_new = (kind == 'cycle') or op[2] == 'new'
                 ghost = d if keep_new else newd
+                new_dump = isinstance(newd, deb822.Deb822)
+                if kind == 'copy':
+                    want_cls = {'Deb822': deb822.Deb822, 'Deb822Dict': deb822.Deb822Dict}.get(op[1], type(d))
+                    if type(newd) is not want_cls:
+                        return (('%s/wrong-class' % label, '%s returned a %s for a %s' % (
+                            COPY_TEXT[op[1]], type(newd).__name__, type(d).__name__), step + 1), info)
                 if keep_new:
-                    d = newd
+                    ghost_dump = has_dump
+                    d, has_dump = newd, new_dump
+                    memo.clear()
+                    ins = [k.lower() for k in m.keys()]
                 else:
+                    ghost_dump = new_dump
                     rec.mon('M')
-                    bad = observe(newd, m, universe, has_dump)      # the copy we do not continue with
+                    bad = observe(newd, m, universe, new_dump, rec)      # the copy we do not continue with
                     if bad:
                         return (('%s/%s' % (label, bad[0]), 'the object returned by %r: %s' % (op, bad[1]), step + 1), info)
-                ghosts.append((ghost, m.copy(), step))
+                ghosts.append((ghost, m.copy(), step, ghost_dump))
                 ghosts = ghosts[-4:]
 
             # ---- full observation after EVERY operation, failed ones included
             rec.mon('M')
             if expect != 'ok':
                 rec.mon('M.failed-op')
-            bad = observe(d, m, universe, has_dump)
+            bad = observe(d, m, universe, has_dump, rec, memo)
             if bad:
                 phase = label if expect == 'ok' else 'failed-%s' % label
+                if stored_key_sort and bad[0] in ('key-order', 'dump', 'views'):
+                    bad = (bad[0] + '/key-function-returns-the-key-object', bad[1])
                 msg = ('after op #%d %r%s: %s' % (step, op, '' if expect == 'ok' else ' (rejected with %s)'
                                                  % type(raised).__name__, bad[1]))
                 if expect != 'ok':
@@ -767,9 +1101,12 @@ def execute(rec, case):
                 return (('%s/%s' % (phase, bad[0]), msg, step + 1), info)
 
         # ---- ghosts must still be what they were
-        for g, gm, gstep in ghosts:
+        for g, gm, gstep, gdump in ghosts:
             rec.mon('M.ghost')
-            bad = observe(g, gm, universe, has_dump)
+            if last_move > gstep:
+                rec.count('ghost:other-object-re-ordered-afterwards')
+                rec.mon('M.ghost.after-reorder')
+            bad = observe(g, gm, universe, gdump, rec)
             if bad:
                 return (('copy-or-reparse/other-object-changed-%s' % bad[0],
                          'object left behind at op #%d %r changed afterwards: %s' % (gstep, ops[gstep], bad[1]),
